@@ -174,6 +174,9 @@ func C12(rep *ev.Reporter, tier string) {
 	addProg("forget-call", []*grl.Rule{grl.R("g", nil, "F.GetI() < 13", "F.I = F.I + 1", `Forget("F.GetI()")`), grl.R("h", nil, "(F.GetI() >= 13) && F.K < 1", "F.K = 1", `Changed("F.GetI()")`)})
 	addProg("changed-call", []*grl.Rule{grl.R("g", nil, "F.Add(F.GetI(), 0) < 13 && !(F.GetI() > 20)", "F.I = F.I + 1", `Changed("F.GetI()")`)})
 	addProg("strings", []*grl.Rule{grl.R("q", nil, `F.S != "a\"b" && F.S != 'c"d' && F.S + "é漢" != ""`, `F.S = "tab\there\n"`, `Retract("q")`)})
+	// no variable at all (the working-memory sections of the stream are empty): the loaded knowledge base must
+	// still accept further resources
+	kbs = append(kbs, c12KB{name: "no-variable", text: `rule OnlyConstants salience 1 { when 1 + 1 == 2 && "a" != "b" then Complete(); }`})
 	kbs = append(kbs, c12KB{name: "metadata-extremes", text: `rule Lowest "min" salience -2147483648 { when F.I2 == 0 then F.I2 = 1; }
 rule Highest 'single "quoted" desc' salience 2147483647 { when F.I2 == 1 then F.I2 = 2; }
 rule Ünïcode_名前 "tab\there \"q\" é漢😀" salience 0x10 { when F.I2 == 2 then F.I2 = 3; F.S = "é漢😀\x00end"; }
@@ -442,7 +445,12 @@ rule OctalSal salience -017 { when F.I2 > 99 then F.I2 = 0; }`})
 			id := "c12/" + k.name + "/build-on-loaded"
 			if rep.ReplayFilter == "" || rep.ReplayFilter == id {
 				extra := `rule ExtraOnLoaded salience 66 { when F.I2 == 0 && F.B then F.I2 = F.I2 + 1; F.S = F.S + "onloaded"; }`
-				on := func(loadFirst bool, op string) (string, error) {
+				on := func(loadFirst bool, op string) (out string, rerr error) {
+					defer func() {
+						if r := recover(); r != nil {
+							out, rerr = "", fmt.Errorf("PANIC %v", r) // e.g. the builder panicking on a loaded knowledge base
+						}
+					}()
 					l := ast.NewKnowledgeLibrary()
 					if err := builder.NewRuleBuilder(l).BuildRuleFromResource("KB", "1", pkg.NewBytesResource([]byte(k.text))); err != nil {
 						return "", err
